@@ -125,6 +125,12 @@ func encodedLen(e *evaluator, v ssa.Value) *term {
 		}
 		return t
 	case *ssa.Call:
+		// a helper of package encode that builds and returns the buffer: its own result length
+		if h := calleeOf(x); h != nil && pkgPathOf(h) == encPath && len(h.Blocks) > 0 && !hasLoop(h) {
+			if rets := returnsOf(h); len(rets) == 1 && len(rets[0].Results) >= 1 {
+				return encodedLen(e, rets[0].Results[0])
+			}
+		}
 		// binary.LittleEndian.AppendUintN(base, v)
 		if f := calleeOf(x); f != nil && strings.HasPrefix(funcID(f), "(encoding/binary.littleEndian).AppendUint") && len(x.Call.Args) == 3 {
 			var n int64
@@ -370,6 +376,31 @@ func fixedIntBijection(p *Program, enc, dec *ssa.Function, T types.Type) string 
 				put = call
 			}
 		}
+		// the write may sit in a helper of package encode that Encode hands the (converted) value to
+		var viaParam *ssa.Parameter
+		var viaArg ssa.Value
+		if put == nil {
+			for _, c := range callsIn(enc) {
+				call, ok := c.(*ssa.Call)
+				if !ok {
+					continue
+				}
+				h := calleeOf(call)
+				if h == nil || pkgPathOf(h) != encPath || len(h.Blocks) == 0 {
+					continue
+				}
+				for _, hc := range callsIn(h) {
+					if hcall, ok := hc.(*ssa.Call); ok && (strings.Contains(funcID(calleeOf(hcall)), "PutUint") || strings.Contains(funcID(calleeOf(hcall)), "AppendUint")) {
+						r0, _, _ := convChain(hcall.Call.Args[2])
+						for pi, prm := range h.Params {
+							if r0 == ssa.Value(prm) && pi < len(call.Call.Args) {
+								put, viaParam, viaArg = hcall, prm, call.Call.Args[pi]
+							}
+						}
+					}
+				}
+			}
+		}
 		if put == nil {
 			return "Encode does not call binary PutUintN / AppendUintN"
 		}
@@ -377,6 +408,16 @@ func fixedIntBijection(p *Program, enc, dec *ssa.Function, T types.Type) string 
 			return "Encode writes with " + funcID(calleeOf(put)) + ", want (binary.littleEndian).PutUint" + n + " or AppendUint" + n
 		}
 		root, ok, why := convChain(put.Call.Args[2])
+		if viaParam != nil {
+			// chain inside the helper down to its parameter, then the caller's chain down to the assertion
+			if root != ssa.Value(viaParam) {
+				return "the value written by the helper is not its parameter"
+			}
+			if !ok {
+				return "Encode: " + why
+			}
+			root, ok, why = convChain(viaArg)
+		}
 		if root != assert {
 			return "the value written is not the asserted argument"
 		}
@@ -409,6 +450,20 @@ func fixedIntBijection(p *Program, enc, dec *ssa.Function, T types.Type) string 
 			}
 		} else {
 			call, ok := root.(*ssa.Call)
+			// the read may sit in a helper of package encode: look through its single return
+			if ok && !isLittleEndianCall(call, "Uint"+n) {
+				if h := calleeOf(call); h != nil && pkgPathOf(h) == encPath && len(h.Blocks) > 0 {
+					if rets := returnsOf(h); len(rets) == 1 && len(rets[0].Results) == 1 {
+						r2, ok2, why2 := convChain(rets[0].Results[0])
+						if !ok2 {
+							return "Decode: " + why2 + " (in " + shortFn(h) + ")"
+						}
+						if c2, isC := r2.(*ssa.Call); isC {
+							call = c2
+						}
+					}
+				}
+			}
 			if !ok || !isLittleEndianCall(call, "Uint"+n) {
 				got := "a non-call"
 				if ok {
